@@ -5,7 +5,7 @@ CONSTANTS
   PT <- PTRace
   Modes = {"run"}
   ChainedSet = {TRUE, FALSE}
-  Starts = {0, 1}
+  Starts = {1}
   Targets = {3}
   Corruptions <- NoCorruption
   NT = 2
